@@ -194,7 +194,7 @@ impl Fault {
 }
 pub const FAULT_KINDS: [&str; 6] = ["none", "truncate_at", "io_error_at", "bit_flip", "trailing", "reader_wider"];
 /// Input-mode perturbations are counted as fault kinds of their own in the evidence.
-pub const MODE_KINDS: [&str; 5] = ["short_read", "eintr", "remaining_len_none", "remaining_len_err", "native_read_byte"];
+pub const MODE_KINDS: [&str; 6] = ["short_read", "eintr", "remaining_len_none", "remaining_len_err", "native_read_byte", "remaining_len_over_reports"];
 
 /// One use of the serde seam: serialise `bits` in layout `lay`, present the result to the real
 /// `Deserialize` impl in every presentation and with every stream fault, and through two real formats.
@@ -300,7 +300,7 @@ impl Fault {
 
 pub fn mode_to_json(m: &InputMode) -> Value {
     json!({
-        "remaining_len": match m.rl { RlMode::None => "none", RlMode::Exact => "exact", RlMode::Err => "err" },
+        "remaining_len": match m.rl { RlMode::None => "none", RlMode::Exact => "exact", RlMode::Err => "err", RlMode::Over => "over" },
         "native_read_byte": m.native_read_byte,
         "io_reader": m.io.as_ref().map(|p| json!({"chunks": p.chunks, "eintr_mask": p.eintr_mask})),
     })
@@ -310,6 +310,7 @@ pub fn mode_from_json(v: &Value) -> Result<InputMode, String> {
         "none" => RlMode::None,
         "exact" => RlMode::Exact,
         "err" => RlMode::Err,
+        "over" => RlMode::Over,
         o => return Err(format!("bad remaining_len {}", o)),
     };
     let io = match v.get("io_reader") {
